@@ -1,0 +1,9 @@
+//go:build verif
+
+package l1infotreesync
+
+import "database/sql"
+
+// VerifDB returns the processor's connection pool, so that a verification driver can keep a read cursor open on it
+// while the syncer writes (a query in flight in another goroutine). No logic lives here.
+func (s *L1InfoTreeSync) VerifDB() *sql.DB { return s.processor.db }
